@@ -160,7 +160,7 @@ def gen_history(hid, rng, prop, tier):
         cap = rng.choice([4, 4, 4, 5, 5, 6, 7, 8, 9])
         U = rng.choice([6, 8, 12, 16, 17, 24, 40, 80])
         n = rng.choice([30, 80, 160] if tier == "quick" else [100, 300, 700])
-        dump = 1
+        dump = 1 if n <= 160 else rng.choice([3, 7])     # keeps the trace files small
     # integer keys: sometimes straddle the end of the C `long` range (ordinals >= 5000)
     base = 0
     if kind == "int" and rng.random() < 0.15:
